@@ -25,6 +25,7 @@ Chk(ok, kind, e, name) == IF ok THEN TRUE ELSE Fail(kind, e, name)
 TraceInit ==
   /\ cfg = Empty /\ msgs = <<>> /\ net = {} /\ chan = <<>> /\ log = <<>> /\ ackq = {}
   /\ clk = 1 /\ known = <<>> /\ paused = FALSE
+  /\ eocc = TRUE /\ snap = "none" /\ infl = <<>> /\ unc = {}
   /\ Trace[1].a = "Open"     \* first line: the driver's start marker
   /\ l = 2
 
@@ -33,10 +34,14 @@ BindRound(e) ==
   /\ net' = {} /\ chan' = <<>> /\ ackq' = {}
   /\ clk' = e.clk /\ known' = e.known
   /\ paused' = e.paused       \* state of the partition when the round ended
+  /\ eocc' = e.eocc           \* setting of the running commit log when the round ended
+  /\ snap' = e.snap           \* what the newest snapshot in the Raft snapshot store says about the stream
+  /\ infl' = [p \in DOMAIN e.known |-> 0] /\ unc' = {}     \* (not observable, not used by the history predicates)
 
 Reset ==
   /\ cfg' = Empty /\ msgs' = <<>> /\ log' = <<>> /\ net' = {} /\ chan' = <<>> /\ ackq' = {}
   /\ clk' = 1 /\ known' = <<>> /\ paused' = FALSE
+  /\ eocc' = TRUE /\ snap' = "none" /\ infl' = <<>> /\ unc' = {}
 
 TraceNext ==
   /\ Trace[l].a # "End"
@@ -54,6 +59,9 @@ TraceNext ==
           /\ Chk(C16_OneWinner', "P", e, "C16_OneWinner")
           /\ Chk(C16_NoneNotSilent', "P", e, "C16_NoneNotSilent")
           /\ Chk(C16_Answered', "P", e, "C16_Answered")
+          /\ Chk(C16_UnstoredJustified', "P", e, "C16_UnstoredJustified")
+          /\ Chk(I_NoExpAsZero', "I", e, "I_NoExpAsZero")
+          /\ Chk(I_OccKept', "I", e, "I_OccKept")
           /\ Chk(TypeOK', "I", e, "TypeOK")
           /\ Chk(I_Resolved', "I", e, "I_Resolved")
           /\ Chk(I_NonOccAll', "I", e, "I_NonOccAll")
